@@ -54,6 +54,24 @@ def rnp_families(rng, count):
     return out
 
 
+def witness_family(rng, count):
+    """instances beyond the exhaustive TLA+ oracle (8-11 items, 3-5 bins) for the witness-judged half of C02: the sizes at which the recursive /
+    sequential partitioners' branches, windows and incumbent updates do real work (a 5-bin defect of rnp showed on about 1 in 1000 such inputs)"""
+    out = []
+    for i in range(count):
+        r = rng.random()
+        if r < 0.6:
+            k, n = 5, rng.choice([8, 9, 9])
+        elif r < 0.85:
+            k, n = 4, rng.randint(8, 10)
+        else:
+            k, n = 3, rng.randint(9, 11)
+        mv = rng.choice([15, 50, 50, 100])
+        vals = [rng.randint(0 if i % 9 == 0 else 1, mv) for _ in range(n)]
+        out.append({"vals": vals, "k": k})
+    return out
+
+
 def planted_partitions(rng, count, maxitems=300):
     """instances built as k bins of equal total T (so OPT max = OPT min = T): the certificate is the planted partition"""
     out = []
